@@ -13,6 +13,8 @@ Property sentence                                                   theorem
   (no false negatives)"                                                no_false_negative_add, no_false_negative_union
  "the server answers each chunk request with exactly the              server_chunk, server_chunk_none_iff
   requested bytes or not at all"
+ … also in the second and every later round, when the server's       full_means_equal_rounds, round_complete_equal
+  filter changed between complete rounds                               (ghost: server's current / last-round filter)
  valid chunk sizes are exactly 4, 8, …, 512                            valid_chunk_sizes
  `next_request`'s `expect` and `handle_response`'s slices never fail    client_never_panics
 
@@ -21,8 +23,10 @@ Quantifiers: every valid chunk size, every operation list (interleaving of `next
 Hypothesis of `full_means_equal` (`HonestRun`): an answer that carries the cookie of the outstanding
 request and has the requested length carries the server's bytes for THAT request.  The response field has
 no offset of its own, so this is exactly what the cookie is for; answers with any other cookie or length
-(stale, mismatched, garbage) are unrestricted.  A server whose filter changes between chunks yields a
-mixture — outside the claim.
+(stale, mismatched, garbage) are unrestricted.  `full_means_equal` is for one fixed `F`;
+`full_means_equal_rounds` / `round_complete_equal` let the server's filter change BETWEEN complete rounds
+(`GValid`: only while `next_to_request = 0`).  A server whose filter changes DURING a round yields a
+mixture — outside the claim (the mixture is characterised exactly by `full_means_equal_rounds`).
 -/
 import NtpVerif.Proofs.Bloom
 
@@ -373,6 +377,219 @@ theorem client_never_panics (F : Filter) (hF : F.length = 512) (c : Nat) (r0 : R
     ∀ o ∈ (run r0 ops).2, o ≠ .req .panic ∧ o ≠ .resp .panic :=
   (inv_run F r0 0 ops (inv_new F hF c r0 h0) hh).2
 
+/-! #### later rounds: the server's filter may change BETWEEN complete rounds -/
+
+/-- a history in which the server's filter changes: client operations interleaved with server changes -/
+inductive GOp where
+  | client (o : Op)
+  | server (F' : Filter)      -- the server now holds `F'`
+deriving Repr
+
+/-- client state plus two ghost values: the server's current filter, and the server's filter as of the
+    last round the client completed -/
+structure GSt where
+  r : Remote
+  F : Filter
+  Flast : Filter
+
+def gstep (s : GSt) : GOp → GSt
+  | .client o =>
+    let r' := (step s.r o).1
+    -- an accepted answer that wraps `next_to_request` to 0 completes a round
+    ⟨r', s.F, if (step s.r o).2 = .resp .ok ∧ r'.next = 0 then s.F else s.Flast⟩
+  | .server F' => ⟨s.r, F', s.Flast⟩
+
+def grun (s : GSt) : List GOp → GSt
+  | [] => s
+  | op :: ops => grun (gstep s op) ops
+
+/-- client answers are honest w.r.t. the server's CURRENT filter; the server changes its filter only
+    between complete rounds (no chunk of the current round accepted yet), never during one -/
+def GValid (s : GSt) : GOp → Prop
+  | .client o => Honest s.F s.r o
+  | .server F' => s.r.next = 0 ∧ F'.length = 512
+
+def GValidRun (s : GSt) : List GOp → Prop
+  | [] => True
+  | op :: ops => GValid s op ∧ GValidRun (gstep s op) ops
+
+/-- invariant with a changing server: bytes `[0, next)` come from the current filter, and once filled
+    the bytes `[next, 512)` are those of the last completed round -/
+structure GInv (s : GSt) : Prop where
+  lenF : s.F.length = 512
+  lenf : s.r.filter.length = 512
+  chunk : s.r.chunk ∈ [4, 8, 16, 32, 64, 128, 256, 512]
+  aligned : s.r.next % s.r.chunk = 0
+  bound : s.r.next < 512
+  last : ∀ off c, s.r.last = some (off, c) → off = s.r.next
+  pre : s.r.filter.take s.r.next = s.F.take s.r.next
+  rest : s.r.filled = true → s.r.filter.drop s.r.next = s.Flast.drop s.r.next
+
+theorem drop_splice (f b : List UInt8) (n c : Nat) (hn : n ≤ f.length) (hb : b.length = c) :
+    (f.take n ++ b ++ f.drop (n + c)).drop (n + c) = f.drop (n + c) := by
+  have h1 : (f.take n ++ b).length = n + c := by
+    rw [List.length_append, List.length_take, hb]; omega
+  rw [← h1, List.drop_left]
+
+theorem ginv_step (s : GSt) (op : GOp) (hi : GInv s) (hv : GValid s op) : GInv (gstep s op) := by
+  obtain ⟨hfit, h4, hpos⟩ := chunk_fits hi.chunk hi.aligned hi.bound
+  cases op with
+  | server F' =>
+    obtain ⟨hn, hl⟩ := hv
+    exact ⟨hl, hi.lenf, hi.chunk, hi.aligned, hi.bound, hi.last,
+      by show s.r.filter.take s.r.next = F'.take s.r.next; rw [hn]; rfl, hi.rest⟩
+  | client o =>
+    cases o with
+    | next c =>
+      have hnew : Request.new? s.r.chunk s.r.next = .some ⟨s.r.chunk, s.r.next⟩ := by
+        unfold Request.new?
+        rw [if_neg (by omega), if_neg (by omega), if_neg (by omega)]
+      simp only [gstep, step, nextRequest, hnew, reduceCtorEq, false_and, if_false]
+      exact ⟨hi.lenF, hi.lenf, hi.chunk, hi.aligned, hi.bound,
+        by intro off c' h; simp only [Option.some.injEq, Prod.mk.injEq] at h; exact h.1.symm,
+        hi.pre, hi.rest⟩
+    | resp c b =>
+      have hh : Honest s.F s.r (.resp c b) := hv
+      simp only [gstep, step, handleResponse]
+      split
+      · simp only [reduceCtorEq, Obs.resp.injEq, false_and, if_false]
+        exact hi
+      · rename_i off expected hl
+        have hoff : off = s.r.next := hi.last off expected hl
+        subst hoff
+        split
+        · simp only [Obs.resp.injEq, reduceCtorEq, false_and, if_false]
+          exact hi
+        · rename_i hc
+          split
+          · simp only [Obs.resp.injEq, reduceCtorEq, false_and, if_false]
+            exact hi
+          · rename_i hlen
+            simp only [ne_eq, Decidable.not_not] at hc hlen
+            have hnp : ¬ (s.r.next > s.r.filter.length ∨ s.r.chunk > s.r.filter.length - s.r.next) := by
+              rw [hi.lenf]; omega
+            rw [if_neg hnp]
+            have hb : b = (s.F.drop s.r.next).take s.r.chunk := hh s.r.next (by rw [hl, hc]) hlen
+            have hlenf' : (s.r.filter.take s.r.next ++ b ++ s.r.filter.drop (s.r.next + s.r.chunk)).length
+                = 512 := by
+              simp only [List.length_append, List.length_take, List.length_drop, hlen, hi.lenf]; omega
+            have htake := take_splice s.r.filter s.F b s.r.next s.r.chunk (by rw [hi.lenf]; omega) hb hi.pre
+              (by rw [hi.lenF]; exact hfit)
+            have hdrop := drop_splice s.r.filter b s.r.next s.r.chunk (by rw [hi.lenf]; omega) hlen
+            simp only [advance_eq, true_and]
+            by_cases hwrap : s.r.next + s.r.chunk = 512
+            · have hz : (s.r.next + s.r.chunk) % 512 = 0 := by rw [hwrap]
+              have heq : s.r.filter.take s.r.next ++ b ++ s.r.filter.drop (s.r.next + s.r.chunk) = s.F := by
+                have e1 : List.take (s.r.next + s.r.chunk)
+                    (s.r.filter.take s.r.next ++ b ++ s.r.filter.drop (s.r.next + s.r.chunk)) =
+                    s.r.filter.take s.r.next ++ b ++ s.r.filter.drop (s.r.next + s.r.chunk) :=
+                  List.take_of_length_le (by rw [hlenf']; omega)
+                have e2 : List.take (s.r.next + s.r.chunk) s.F = s.F :=
+                  List.take_of_length_le (by rw [hi.lenF]; omega)
+                rw [← e1, htake, e2]
+              simp only [hz, if_true, heq]
+              exact ⟨hi.lenF, hi.lenF, hi.chunk, by simp, by simp, by simp, by simp, by simp⟩
+            · have hlt : s.r.next + s.r.chunk < 512 := by omega
+              have hm : (s.r.next + s.r.chunk) % 512 = s.r.next + s.r.chunk := Nat.mod_eq_of_lt hlt
+              have hnz : ¬ (s.r.next + s.r.chunk = 0) := by omega
+              simp only [hm, hnz, if_false]
+              refine ⟨hi.lenF, hlenf', hi.chunk, ?_, hlt, by simp, htake, ?_⟩
+              · show (s.r.next + s.r.chunk) % s.r.chunk = 0
+                rw [Nat.add_mod, hi.aligned, Nat.mod_self]; simp
+              · intro hfl
+                show (s.r.filter.take s.r.next ++ b ++ s.r.filter.drop (s.r.next + s.r.chunk)).drop
+                  (s.r.next + s.r.chunk) = s.Flast.drop (s.r.next + s.r.chunk)
+                rw [hdrop, ← List.drop_drop, ← List.drop_drop, hi.rest hfl]
+
+theorem ginv_run (s : GSt) (ops : List GOp) (hi : GInv s) (hv : GValidRun s ops) : GInv (grun s ops) := by
+  induction ops generalizing s with
+  | nil => exact hi
+  | cons op ops ih => exact ih _ (ginv_step s op hi hv.1) hv.2
+
+theorem ginv_new (F : Filter) (hF : F.length = 512) (c : Nat) (r : Remote) (h : Remote.new? c = some r) :
+    GInv ⟨r, F, F⟩ := by
+  have hi := inv_new F hF c r h
+  refine ⟨hi.lenF, hi.lenf, hi.chunk, hi.aligned, hi.bound, hi.last, hi.pre, ?_⟩
+  intro hfl
+  have := hi.count
+  unfold Remote.new? at h
+  split at h
+  · cases h
+  · split at h
+    · cases h
+    · split at h
+      · cases h
+      · cases h; cases hfl
+
+/-- **C34.full_means_equal_rounds** — every valid chunk size, every history in which the server's filter
+    changes only between complete rounds and answers are honest w.r.t. the filter current at the time:
+    whenever the client reports a full filter at a round boundary (`next_to_request = 0`), it is exactly
+    the server's filter as of the last completed round — also in the second and every later round.
+    (In the middle of a refresh round the reported filter is, byte for byte, the new filter up to `next`
+    and the previous round's filter after it.) -/
+theorem full_means_equal_rounds (F0 : Filter) (hF : F0.length = 512) (c : Nat) (r0 : Remote)
+    (h0 : Remote.new? c = some r0) (ops : List GOp) (hv : GValidRun ⟨r0, F0, F0⟩ ops) (g : Filter)
+    (hg : fullFilter (grun ⟨r0, F0, F0⟩ ops).r = some g) :
+    g = (grun ⟨r0, F0, F0⟩ ops).F.take (grun ⟨r0, F0, F0⟩ ops).r.next ++
+        (grun ⟨r0, F0, F0⟩ ops).Flast.drop (grun ⟨r0, F0, F0⟩ ops).r.next ∧
+    ((grun ⟨r0, F0, F0⟩ ops).r.next = 0 → g = (grun ⟨r0, F0, F0⟩ ops).Flast) := by
+  have hi := ginv_run _ ops (ginv_new F0 hF c r0 h0) hv
+  unfold fullFilter at hg
+  split at hg
+  · rename_i hf
+    cases hg
+    have hmix : (grun ⟨r0, F0, F0⟩ ops).r.filter =
+        (grun ⟨r0, F0, F0⟩ ops).F.take (grun ⟨r0, F0, F0⟩ ops).r.next ++
+        (grun ⟨r0, F0, F0⟩ ops).Flast.drop (grun ⟨r0, F0, F0⟩ ops).r.next := by
+      rw [← hi.pre, ← hi.rest hf, List.take_append_drop]
+    refine ⟨hmix, ?_⟩
+    intro hn
+    rw [hmix, hn]; simp
+  · cases hg
+
+/-- **C34.round_complete_equal** — the moment an accepted answer completes a round (first or later), the
+    client reports exactly the server's current filter. -/
+theorem round_complete_equal (F0 : Filter) (hF : F0.length = 512) (c : Nat) (r0 : Remote)
+    (h0 : Remote.new? c = some r0) (ops : List GOp) (ck : Cookie) (b : List UInt8)
+    (hv : GValidRun ⟨r0, F0, F0⟩ (ops ++ [.client (.resp ck b)]))
+    (hok : (step (grun ⟨r0, F0, F0⟩ ops).r (.resp ck b)).2 = .resp .ok)
+    (hwrap : (step (grun ⟨r0, F0, F0⟩ ops).r (.resp ck b)).1.next = 0) :
+    fullFilter (grun ⟨r0, F0, F0⟩ (ops ++ [.client (.resp ck b)])).r =
+      some (grun ⟨r0, F0, F0⟩ ops).F := by
+  have happ : ∀ (s : GSt) (l : List GOp) (x : GOp), grun s (l ++ [x]) = gstep (grun s l) x := by
+    intro s l x
+    induction l generalizing s with
+    | nil => rfl
+    | cons y l ih => simp only [List.cons_append, grun, ih]
+  have hi := ginv_run _ _ (ginv_new F0 hF c r0 h0) hv
+  rw [happ] at hi ⊢
+  have hlast : (gstep (grun ⟨r0, F0, F0⟩ ops) (.client (.resp ck b))).Flast = (grun ⟨r0, F0, F0⟩ ops).F := by
+    simp only [gstep, hok, hwrap, and_self, if_true]
+  have hr : (gstep (grun ⟨r0, F0, F0⟩ ops) (.client (.resp ck b))).r =
+      (step (grun ⟨r0, F0, F0⟩ ops).r (.resp ck b)).1 := rfl
+  -- the accepting, wrapping step sets `filled`
+  have hfilled : (step (grun ⟨r0, F0, F0⟩ ops).r (.resp ck b)).1.filled = true := by
+    generalize (grun ⟨r0, F0, F0⟩ ops).r = r at hok hwrap ⊢
+    simp only [step, handleResponse] at hok hwrap ⊢
+    split at hok
+    · simp at hok
+    · split at hok
+      · simp at hok
+      · split at hok
+        · simp at hok
+        · split at hok
+          · simp at hok
+          · rename_i h1 h2 h3 h4
+            simp only [h1, h2, h3, h4, if_false] at hwrap ⊢
+            simp only [advance] at hwrap ⊢
+            simp only [hwrap, if_true]
+  have hrest := hi.rest (by rw [hr]; exact hfilled)
+  rw [hr] at hrest
+  rw [hwrap, hlast] at hrest
+  simp only [List.drop_zero] at hrest
+  unfold fullFilter
+  rw [hr, if_pos hfilled, hrest]
+
 /-! #### non-vacuity -/
 
 /-- a 512-byte server filter with a recognisable pattern -/
@@ -388,6 +605,23 @@ example :
       [.req (.req ⟨256, 0⟩), .resp .mismatchedCookie, .resp .mismatchedLength, .resp .ok,
        .resp .notAwaitingResponse, .req (.req ⟨256, 256⟩), .resp .ok] ∧
     fullFilter (run ((Remote.new? 256).get (by decide)) ops).1 = some demoF := by
+  decide +kernel
+
+/-- two rounds with chunk 256: after round 1 the server clears bits (`demoF` → `demoF2`); at the end of
+    round 2 the client holds exactly `demoF2`, and in the middle of round 2 a mixture -/
+example :
+    let demoF2 : Filter := demoF.map (· &&& 0x0f)
+    let r0 := (Remote.new? 256).get (by decide)
+    let ops : List GOp :=
+      [.client (.next [1]), .client (.resp [1] (demoF.take 256)),
+       .client (.next [2]), .client (.resp [2] (demoF.drop 256)),
+       .server demoF2,
+       .client (.next [3]), .client (.resp [3] (demoF2.take 256)),
+       .client (.next [4]), .client (.resp [4] (demoF2.drop 256))]
+    fullFilter (grun ⟨r0, demoF, demoF⟩ (ops.take 4)).r = some demoF ∧
+    fullFilter (grun ⟨r0, demoF, demoF⟩ (ops.take 7)).r = some (demoF2.take 256 ++ demoF.drop 256) ∧
+    fullFilter (grun ⟨r0, demoF, demoF⟩ ops).r = some demoF2 ∧
+    (grun ⟨r0, demoF, demoF⟩ ops).Flast = demoF2 := by
   decide +kernel
 
 /-- membership after adding a ten-index id to the pattern filter; a different id is not reported -/
@@ -414,3 +648,5 @@ end NtpVerif.C34
 #print axioms NtpVerif.C34.full_means_equal
 #print axioms NtpVerif.C34.full_after_all_chunks
 #print axioms NtpVerif.C34.client_never_panics
+#print axioms NtpVerif.C34.full_means_equal_rounds
+#print axioms NtpVerif.C34.round_complete_equal
